@@ -36,7 +36,7 @@ from .alg import (
     mk_sum,
     mk_prod,
 )
-from .interp import UNIT, HashV, IterV, RngBuilder, RngV, Tr, subst_val, slog
+from .interp import UNIT, HashV, IterV, MutSlot, RngBuilder, RngV, Tr, subst_val, slog
 
 MODELS = {}
 
@@ -687,15 +687,22 @@ def m_take(I, a, e, ci):
     return IterV(it.vec.take(n.e, I.bounds), it.mut_place)
 
 
+def mut_elems(I, it):
+    """element vector of an iterator; elements of an iter_mut iterator become MutSlots that remember where they write"""
+    if it.mut_place is None or it.vec is None:
+        return it.vec
+    return it.vec.map_indexed(lambda i, v, p=it.mut_place: MutSlot(p, i, v))
+
+
 @model("std::iter::Iterator::skip")
 def m_skip(I, a, e, ci):
     it, n = I.to_iter(a[0]), a[1]
-    return IterV(it.vec.skip(n.e, I.bounds))
+    return IterV(mut_elems(I, it).skip(n.e, I.bounds))
 
 
 @model("std::iter::Iterator::rev")
 def m_rev(I, a, e, ci):
-    return IterV(I.to_iter(a[0]).vec.rev())
+    return IterV(mut_elems(I, I.to_iter(a[0])).rev())
 
 
 @model("std::iter::Iterator::chain")
@@ -744,17 +751,18 @@ def m_zip(I, a, e, ci):
     x, y = I.to_iter_or_inf(a[0]), I.to_iter_or_inf(a[1])
     if x.vec is None and y.vec is None:
         raise Unanalysable("zip of two unbounded iterators")
+    xv, yv = mut_elems(I, x), mut_elems(I, y)
     if y.vec is None:
-        return IterV(x.vec.map_indexed(lambda i, v, y=y: Tup([v, y.infinite(i)])))
+        return IterV(xv.map_indexed(lambda i, v, y=y: Tup([v, y.infinite(i)])))
     if x.vec is None:
-        return IterV(y.vec.map_indexed(lambda i, v, x=x: Tup([x.infinite(i), v])))
-    return IterV(zip_vecs(x.vec, y.vec, I.bounds))
+        return IterV(yv.map_indexed(lambda i, v, x=x: Tup([x.infinite(i), v])))
+    return IterV(zip_vecs(xv, yv, I.bounds))
 
 
 @model("std::iter::Iterator::enumerate")
 def m_enumerate(I, a, e, ci):
     it = I.to_iter(a[0])
-    return IterV(it.vec.map_indexed(lambda i, v: Tup([IntV(i), v])))
+    return IterV(mut_elems(I, it).map_indexed(lambda i, v: Tup([IntV(i), v])))
 
 
 @model("std::iter::Iterator::map")
@@ -766,7 +774,12 @@ def m_map(I, a, e, ci):
         return IterV(None, infinite=lambda i: I.apply_closure(f, [inf(i)]))
     out = []
     off = sp.Integer(0)
-    for s in it.vec.nonempty_segs():
+    vec = it.vec
+    fc = I.deref(f)
+    if isinstance(fc, Closure):
+        # index-aligned access to vectors captured by the closure: split the range at their breakpoints
+        vec = I.refine_by_env(vec, fc.env)
+    for s in vec.nonempty_segs():
         out.append(eager_map_segment(I, s, f, off))
         off = sp.expand(off + s.n)
     return IterV(Vec(out))
@@ -1046,3 +1059,88 @@ def m_opaque(I, a, e, ci):
 @model("core::panicking::panic", "core::panicking::panic_fmt", "core::panicking::assert_failed")
 def m_panic(I, a, e, ci):
     raise Unanalysable("reachable panic outside a recognised guard", FX.short(e.get("sp")))
+
+
+@model("std::iter::Iterator::fold")
+def m_fold(I, a, e, ci):
+    """fold(init, |acc, x| ..) over a symbolic vector: one generic application per segment, closed by the scalar
+    accumulator schemas of the for-loop engine (constant, power, product, sum)"""
+    it = I.to_iter(a[0], e)
+    acc = I.deref(a[1])
+    f = a[2]
+    where = FX.short(e.get("sp"))
+    if it.vec is None:
+        raise Unanalysable("fold over an unbounded iterator", where)
+    fvec = mut_elems(I, it)
+    fc = I.deref(f)
+    if isinstance(fc, Closure) and it.mut_place is None:
+        fvec = I.refine_by_env(fvec, fc.env)
+    for s in fvec.nonempty_segs():
+        if s.n == 1:
+            acc = I.deref(I.apply_closure(f, [acc, I.bind_slots(s.f(sp.Integer(0)), e)]))
+            continue
+        if not isinstance(acc, Sc):
+            raise Unanalysable(f"fold with an accumulator of kind {acc!r} over a symbolic range", where)
+        j = fresh("j", integer=True, nonnegative=True)
+        ph = fresh("ACC_fold")
+        old_b = I.bounds
+        I.bounds = I.bounds.with_ub(j, s.n)
+        old_trace = I.sub_trace()
+        try:
+            new = I.deref(I.apply_closure(f, [Sc(ph), I.bind_slots(s.f(j), e)]))
+        finally:
+            I.bounds = old_b
+            sub = I.trace
+            I.trace = old_trace
+        if sub.items:
+            raise Unanalysable("effects inside a fold closure", where)
+        if not isinstance(new, Sc):
+            raise Unanalysable(f"fold closure returns {new!r}", where)
+        _, acc = I.scalar_acc_schema(acc, ph, sp.expand(new.e), j, s.n, where, "fold accumulator")
+    return acc
+
+
+@model("std::vec::Vec::<T, A>::reserve", "std::vec::Vec::<T, A>::reserve_exact", "std::vec::Vec::<T, A>::shrink_to_fit", places=(0,))
+def m_reserve(I, a, e, ci):
+    return UNIT
+
+
+@model("std::vec::Vec::<T, A>::resize", places=(0,))
+def m_resize(I, a, e, ci):
+    ref, n, v = a[0], I.deref(a[1]), I.deref(a[2])
+    cur = I.deref(ref.get())
+    if not isinstance(cur, Vec) or not isinstance(n, IntV):
+        raise Unanalysable(f"resize of {cur!r}")
+    ln = cur.length()
+    if le(ln, n.e, I.bounds):
+        log_alloc(I, n.e, e)
+        ref.set(Vec(cur.segs + [Seg(sp.expand(n.e - ln), lambda j, v=v: v)]))
+    elif le(n.e, ln, I.bounds):
+        ref.set(cur.take(n.e, I.bounds))
+    else:
+        raise Unanalysable(f"resize({n.e}) of a vector of length {ln}: cannot order", FX.short(e.get("sp")))
+    return UNIT
+
+
+@model("std::num::<impl u32>::to_le_bytes", "std::num::<impl u32>::to_be_bytes")
+def m_u32_bytes(I, a, e, ci):
+    endian = "LE" if (ci.get("path") or "").endswith("to_le_bytes") else "BE"
+    return Bytes([("u32", endian, I.deref(a[0]))])
+
+
+@model("std::default::Default::default")
+def m_default(I, a, e, ci):
+    """Default::default() for the types whose default value is fixed by std: byte arrays, integers, Vec, bool"""
+    import re as _re
+
+    ty = (e.get("ty") or "").replace(" ", "")
+    m = _re.fullmatch(r"\[u8;(\d+)(usize)?\]", ty)
+    if m:
+        return Bytes([("zeros", int(m.group(1)))])
+    if ty in ("usize", "u64", "u32", "u16", "u8", "i64", "i32", "isize"):
+        return IntV(sp.Integer(0))
+    if ty.startswith(("std::vec::Vec<", "alloc::vec::Vec<")):
+        return Vec([])
+    if ty == "bool":
+        return BoolV(False)
+    raise Unanalysable(f"Default::default() of type {ty}", FX.short(e.get("sp")))
